@@ -103,7 +103,25 @@ func genTLSTokens(repo string) (string, error) {
 			snameUncond = true
 		}
 	}
-	if !(allLow || noneLow) || !oneSet || !snameUncond {
+	// the other recognised shape: the protocol entries go to a map of their own, the three name entries share one
+	separate := false
+	if ok && !oneSet {
+		var nameMap, protoMap string
+		separate = true
+		for _, s := range sites {
+			if s.key == "protocol" {
+				protoMap = s.mapName
+			} else if nameMap == "" {
+				nameMap = s.mapName
+			} else if nameMap != s.mapName {
+				separate = false
+			}
+		}
+		if protoMap == "" || protoMap == nameMap {
+			separate = false
+		}
+	}
+	if !(allLow || noneLow) || !(oneSet || separate) || !snameUncond {
 		ok = false // a shape the model TLSSelect.v does not describe
 	}
 	fmt.Fprintf(&b, "(* buildMatch sites: %s *)\n", strings.Join(descr, " "))
@@ -255,4 +273,170 @@ func goVersionAtLeast122(repo string) bool {
 		}
 	}
 	return false
+}
+
+// genTransferTokens reads
+//
+//	pkg/network/transfer.go  transferBuildHead: make([]byte, N), the offsets of the two PutUint32 calls, the byte order;
+//	                         transferRecvHead: the size asked from transferRecvMsg and the offsets of the two Uint32 calls
+//	pkg/server/handler.go    waitConnectionsClose: the loop condition `remainStream > 0 && waited <= maxWaitTime`
+//	pkg/network/listener.go  Shutdown: upgrade branch calls stopAccept, the other branch calls Close before OnShutdown
+func genTransferTokens(repo string) (string, error) {
+	var b strings.Builder
+	b.WriteString("From Coq Require Import List NArith.\nImport ListNotations.\n")
+	ok := true
+	_, f, err := ParseGoFile(repo, "pkg/network/transfer.go")
+	if err != nil {
+		return "", err
+	}
+	headLen := int64(-1)
+	var putOffs, getOffs []string
+	order := ""
+	if fd := FindFunc(f, "", "transferBuildHead"); fd != nil {
+		ast.Inspect(fd.Body, func(n ast.Node) bool {
+			call, isc := n.(*ast.CallExpr)
+			if !isc {
+				return true
+			}
+			if id, isid := call.Fun.(*ast.Ident); isid && id.Name == "make" && len(call.Args) >= 2 {
+				if lit, isl := call.Args[1].(*ast.BasicLit); isl {
+					headLen, _ = strconv.ParseInt(lit.Value, 10, 64)
+				}
+			}
+			if sel, iss := call.Fun.(*ast.SelectorExpr); iss && sel.Sel.Name == "PutUint32" && len(call.Args) == 2 {
+				order = exprString(sel.X)
+				if sl, issl := call.Args[0].(*ast.SliceExpr); issl && sl.High == nil {
+					if lit, isl := sl.Low.(*ast.BasicLit); isl {
+						putOffs = append(putOffs, lit.Value)
+					}
+				}
+			}
+			return true
+		})
+	} else {
+		ok = false
+	}
+	recvLen := int64(-1)
+	if fd := FindFunc(f, "", "transferRecvHead"); fd != nil {
+		ast.Inspect(fd.Body, func(n ast.Node) bool {
+			call, isc := n.(*ast.CallExpr)
+			if !isc {
+				return true
+			}
+			if id, isid := call.Fun.(*ast.Ident); isid && id.Name == "transferRecvMsg" && len(call.Args) == 2 {
+				if lit, isl := call.Args[1].(*ast.BasicLit); isl {
+					recvLen, _ = strconv.ParseInt(lit.Value, 10, 64)
+				}
+			}
+			if sel, iss := call.Fun.(*ast.SelectorExpr); iss && sel.Sel.Name == "Uint32" && len(call.Args) == 1 {
+				if exprString(sel.X) != order {
+					ok = false
+				}
+				if sl, issl := call.Args[0].(*ast.SliceExpr); issl && sl.High == nil {
+					if lit, isl := sl.Low.(*ast.BasicLit); isl {
+						getOffs = append(getOffs, lit.Value)
+					}
+				}
+			}
+			return true
+		})
+	} else {
+		ok = false
+	}
+	if order != "binary.BigEndian" || len(putOffs) != 2 || len(getOffs) != 2 {
+		ok = false
+	}
+	nlist := func(xs []string) string {
+		var o []string
+		for _, x := range xs {
+			o = append(o, x+"%N")
+		}
+		return CoqList(o)
+	}
+	fmt.Fprintf(&b, "Definition transfer_head_len : N := %d%%N.\n", max64(headLen, 0))
+	fmt.Fprintf(&b, "Definition transfer_recv_head_len : N := %d%%N.\n", max64(recvLen, 0))
+	fmt.Fprintf(&b, "Definition transfer_put_offsets : list N := %s.\n", nlist(putOffs))
+	fmt.Fprintf(&b, "Definition transfer_get_offsets : list N := %s.\n", nlist(getOffs))
+	fmt.Fprintf(&b, "Definition transfer_big_endian : bool := %v.\n", order == "binary.BigEndian")
+
+	// drain loop condition
+	_, hf, err := ParseGoFile(repo, "pkg/server/handler.go")
+	if err != nil {
+		return "", err
+	}
+	gaugeGt0, waitedLe := false, false
+	if fd := FindFunc(hf, "activeListener", "waitConnectionsClose"); fd != nil {
+		ast.Inspect(fd.Body, func(n ast.Node) bool {
+			fs, isf := n.(*ast.ForStmt)
+			if !isf || fs.Cond == nil {
+				return true
+			}
+			and, isb := fs.Cond.(*ast.BinaryExpr)
+			if !isb || and.Op != token.LAND {
+				return true
+			}
+			if l, isl := and.X.(*ast.BinaryExpr); isl && l.Op == token.GTR {
+				if lit, isz := l.Y.(*ast.BasicLit); isz && lit.Value == "0" {
+					gaugeGt0 = true
+				}
+			}
+			if r, isr := and.Y.(*ast.BinaryExpr); isr && r.Op == token.LEQ {
+				waitedLe = true
+			}
+			return true
+		})
+	}
+	if !gaugeGt0 || !waitedLe {
+		ok = false
+	}
+	fmt.Fprintf(&b, "Definition drain_cond_gauge_gt0 : bool := %v.\nDefinition drain_cond_waited_le_max : bool := %v.\n", gaugeGt0, waitedLe)
+
+	// listener Shutdown shape
+	_, lf, err := ParseGoFile(repo, "pkg/network/listener.go")
+	if err != nil {
+		return "", err
+	}
+	upgradeStops, otherCloses := false, false
+	if fd := FindFunc(lf, "listener", "Shutdown"); fd != nil {
+		ast.Inspect(fd.Body, func(n ast.Node) bool {
+			is, isi := n.(*ast.IfStmt)
+			if !isi {
+				return true
+			}
+			cond, isb := is.Cond.(*ast.BinaryExpr)
+			if !isb || cond.Op != token.EQL || !strings.HasSuffix(exprString(cond.Y), "Upgrading") {
+				return true
+			}
+			calls := func(blk ast.Node, name string) bool {
+				found := false
+				ast.Inspect(blk, func(m ast.Node) bool {
+					if c, isc := m.(*ast.CallExpr); isc {
+						if sel, iss := c.Fun.(*ast.SelectorExpr); iss && sel.Sel.Name == name {
+							found = true
+						}
+					}
+					return true
+				})
+				return found
+			}
+			upgradeStops = calls(is.Body, "stopAccept") && !calls(is.Body, "Close")
+			if is.Else != nil {
+				otherCloses = calls(is.Else, "Close") && calls(is.Else, "OnShutdown")
+			}
+			return true
+		})
+	}
+	if !upgradeStops || !otherCloses {
+		ok = false
+	}
+	fmt.Fprintf(&b, "Definition shutdown_upgrade_only_stops_accept : bool := %v.\nDefinition shutdown_otherwise_closes_then_drains : bool := %v.\n", upgradeStops, otherCloses)
+	fmt.Fprintf(&b, "Definition TransferTokens_translator_ok := %v.\n", ok)
+	return b.String(), nil
+}
+
+func max64(a, b int64) int64 {
+	if a > b {
+		return a
+	}
+	return b
 }
